@@ -80,6 +80,20 @@ def run(tier, replay_file=None):
             hr = _r.Random(common.seed() + int(compress)).sample(hr, min(len(hr), 120))
         if not replay_set(R, hr, compress, known_total):
             break
+    # a session begun, then another one begun with another selection before any step (the clock is at the start both times), then
+    # every restore path, then steps / session-results: every history, both formats
+    SHAPE2 = ('MC_Rebegin == LET n == Len(hist\') h == hist\'[n] IN\n'
+              '   /\\ (n = 1 => h.op = "Start") /\\ (n \\in {2, 3} => h.op = "Begin" /\\ h.status = 200)\n'
+              '   /\\ (n = 3 => h.sc # hist\'[2].sc \\/ h.kv # hist\'[2].kv)\n'
+              '   /\\ (n = 4 => h.op \\in {"Crash", "LoadState", "Tick"}) /\\ (n \\in {5, 6} => h.op \\in {"Results", "Step"})\n')
+    for compress in (False, True):
+        c = consts('{"i1"}', 4, DEV, compress, ops='{"Start","Begin","Step","Results","Tick","LoadState","Crash"}', timeouts='{2}', ticks='{3}', kv='{0,2}', sv='{0,3}')
+        hb, _ = gen.histories("Server", c, 6, defs=SHAPE2, extra_cfg={"action_constraints": ["MC_Rebegin"]})
+        R.cov["begin_twice_then_restore_histories_%s" % ("compressed" if compress else "plain")] = len(hb)
+        if quick:
+            hb = _r.Random(common.seed() + 2 + int(compress)).sample(hb, min(len(hb), 100))
+        if not replay_set(R, hb, compress, known_total):
+            break
     R.cov["known_matches"] = known_total
     R.sample([{a: b for a, b in h.items() if a not in ("rows", "want", "row")} for h in hs[0]])
     f = R.findings.open_for("C19") + [e for e in R.findings.entries if e.get("status") == "open" and "C19" in e.get("also", [])]
